@@ -633,6 +633,8 @@ func (e *taintEngine) Sinks() []taintSink {
 					if ok, why := e.guarded(st.Block(), st.Val); ok {
 						sk.tainted = false
 						sk.guard = why
+					} else {
+						sk.guard = why // the reason the guards do not cover it
 					}
 				}
 				out = append(out, sk)
@@ -830,6 +832,11 @@ func (e *taintEngine) guarded(sinkBlock *ssa.BasicBlock, val ssa.Value) (bool, s
 		v         ssa.Value
 		descended bool
 		b         *ssa.BasicBlock // guards are those dominating b
+		// viaCtx: the value was bound to a variable of a child evaluation context in which the
+		// printed value was then evaluated. Its own marks travel with it into the evaluation
+		// result (and are covered by the guard on that result); what can be lost are marks
+		// stripped (Unmark) from a collection before its elements were bound.
+		viaCtx bool
 	}
 	guardCache := map[*ssa.BasicBlock]markGuards{}
 	guardsAt := func(b *ssa.BasicBlock) markGuards {
@@ -841,7 +848,7 @@ func (e *taintEngine) guarded(sinkBlock *ssa.BasicBlock, val ssa.Value) (bool, s
 		return g
 	}
 	seen := map[item]bool{}
-	work := []item{{val, false, sinkBlock}}
+	work := []item{{val, false, sinkBlock, false}}
 	covered := 0
 	for len(work) > 0 {
 		it := work[len(work)-1]
@@ -857,29 +864,58 @@ func (e *taintEngine) guarded(sinkBlock *ssa.BasicBlock, val ssa.Value) (bool, s
 			g2 = guardsAt(ins.Block())
 		}
 		n := normSubject(it.v)
-		if g.deep[n] || g.deep[it.v] || g2.deep[n] || g2.deep[it.v] {
+		coveredHere := g.deep[n] || g.deep[it.v] || g2.deep[n] || g2.deep[it.v] ||
+			((g.shallow[n] || g.shallow[it.v] || g2.shallow[n] || g2.shallow[it.v]) && !it.descended)
+		if coveredHere {
 			covered++
-			continue
-		}
-		if (g.shallow[n] || g.shallow[it.v] || g2.shallow[n] || g2.shallow[it.v]) && !it.descended {
-			covered++
+			if !it.viaCtx {
+				// the guarded value may be the result of an evaluation in a child scope built
+				// here: what was bound in that scope is a further origin
+				for _, ec := range evalCallsUp(it.v) {
+					for _, v := range childScopeBindings(ec) {
+						work = append(work, item{v, false, it.b, true})
+					}
+				}
+			}
 			continue
 		}
 		ctx := it.b
-		if ins, ok := it.v.(ssa.Instruction); ok && ins.Block() != nil {
+		if ins, ok := it.v.(ssa.Instruction); ok && ins.Block() != nil && !it.viaCtx {
 			// operands are evaluated where the instruction is: keep the more
 			// specific (dominated) context
 			if it.b.Dominates(ins.Block()) {
 				ctx = ins.Block()
 			}
 		}
-		push := func(v ssa.Value, d bool, b *ssa.BasicBlock) { work = append(work, item{v, it.descended || d, b}) }
+		push := func(v ssa.Value, d bool, b *ssa.BasicBlock) {
+			work = append(work, item{v, it.descended || d, b, it.viaCtx})
+		}
+		if it.viaCtx {
+			// walking up from a child-scope variable: only an Unmark on the way strips marks
+			var call *ssa.Call
+			if ex, ok := it.v.(*ssa.Extract); ok && ex.Index == 0 {
+				call, _ = ex.Tuple.(*ssa.Call)
+			}
+			if call != nil && calleeOf(&call.Call).isCtyValueMethod("Unmark", "UnmarkDeep", "UnmarkDeepWithPaths") && len(call.Call.Args) > 0 {
+				subj := normSubject(call.Call.Args[0])
+				gs := guardsAt(it.b)
+				if gs.shallow[subj] || gs.deep[subj] || gs.shallow[call.Call.Args[0]] || gs.deep[call.Call.Args[0]] {
+					covered++
+					continue
+				}
+				return false, "the marks stripped from " + valueDesc(call.Call.Args[0]) + " before its elements were bound in the child scope are not tested"
+			}
+		}
 		switch x := it.v.(type) {
 		case *ssa.Parameter, *ssa.FreeVar, *ssa.Global:
 			return false, "origin " + valueDesc(it.v) + " is not covered by a mark guard"
 		case *ssa.Phi:
 			for i, ed := range x.Edges {
 				pb := x.Block().Preds[i]
+				if it.viaCtx {
+					push(ed, false, it.b)
+					continue
+				}
 				// the guards of the incoming edge: those dominating the predecessor
 				// (the context is kept if it is more specific)
 				if it.b != x.Block() && x.Block().Dominates(it.b) && !pb.Dominates(it.b) {
@@ -913,6 +949,11 @@ func (e *taintEngine) guarded(sinkBlock *ssa.BasicBlock, val ssa.Value) (bool, s
 			}
 		case *ssa.Call:
 			ci := calleeOf(&x.Call)
+			if !it.viaCtx {
+				for _, v := range childScopeBindings(x) {
+					work = append(work, item{v, false, it.b, true})
+				}
+			}
 			d := ci.isCtyValueMethod() && descendingValueMethods[ci.name]
 			if ci.name == "Element" || ci.name == "Next" {
 				d = true
@@ -980,5 +1021,87 @@ func storesInto(al *ssa.Alloc) []*ssa.Store {
 		}
 	}
 	walk(al)
+	return out
+}
+
+// childScopeBindings: for a call X.Value(cctx) (or a decoder taking cctx) where cctx is a child
+// evaluation context created in this function, the values stored into cctx.Variables.
+func childScopeBindings(call *ssa.Call) []ssa.Value {
+	var out []ssa.Value
+	for _, a := range call.Call.Args {
+		pt, ok := a.Type().(*types.Pointer)
+		if !ok || !isNamed(pt.Elem(), modPath, "EvalContext") {
+			continue
+		}
+		c2, ok := a.(*ssa.Call)
+		if !ok {
+			continue
+		}
+		if cal := c2.Call.StaticCallee(); cal == nil || cal.Name() != "NewChild" {
+			continue
+		}
+		fn := call.Parent()
+		for _, b := range fn.Blocks {
+			for _, ins := range b.Instrs {
+				mu, ok := ins.(*ssa.MapUpdate)
+				if !ok {
+					continue
+				}
+				ld, ok := mu.Map.(*ssa.UnOp)
+				if !ok {
+					continue
+				}
+				fa, ok := ld.X.(*ssa.FieldAddr)
+				if !ok || fa.X != ssa.Value(c2) {
+					continue
+				}
+				if fv := fieldVarOf(fa.X.Type(), fa.Field); fv != nil && fv.Name() == "Variables" {
+					out = append(out, mu.Value)
+				}
+			}
+		}
+	}
+	return out
+}
+
+// evalCallsUp: calls that take an *hcl.EvalContext (Expression.Value, custom decoders) from whose
+// result v is computed by value-preserving steps (Unmark, conversions, tuple extraction, phis).
+func evalCallsUp(v ssa.Value) []*ssa.Call {
+	var out []*ssa.Call
+	seen := map[ssa.Value]bool{}
+	var walk func(v ssa.Value, d int)
+	walk = func(v ssa.Value, d int) {
+		if v == nil || seen[v] || d > 14 {
+			return
+		}
+		seen[v] = true
+		switch x := v.(type) {
+		case *ssa.Extract:
+			walk(x.Tuple, d+1)
+		case *ssa.ChangeType:
+			walk(x.X, d+1)
+		case *ssa.Phi:
+			for _, e := range x.Edges {
+				walk(e, d+1)
+			}
+		case *ssa.Call:
+			hasCtx := false
+			for _, a := range x.Call.Args {
+				if pt, ok := a.Type().(*types.Pointer); ok && isNamed(pt.Elem(), modPath, "EvalContext") {
+					hasCtx = true
+				}
+			}
+			if hasCtx {
+				out = append(out, x)
+				return
+			}
+			for _, a := range x.Call.Args {
+				if isCtyValue(a.Type()) {
+					walk(a, d+1)
+				}
+			}
+		}
+	}
+	walk(v, 0)
 	return out
 }
